@@ -13,8 +13,9 @@
 (* splitting iter_fasta_records), parse/phylip.py MinimalPhylipParser (the    *)
 (* sequential branch the writer's two-field header selects), parse/paml.py.   *)
 (* TLC checks that on the domain Clean(..) every parser model applied to      *)
-(* every text the writer relation allows gives the oracle, and characterises  *)
-(* exactly where the bytes-based FASTA parser does not.                        *)
+(* every text the writer relation allows gives the oracle -- names holding a  *)
+(* '>' included, for the line based and (since the repair 3b7d8a88e of         *)
+(* iter_fasta_records) the bytes based FASTA parser alike.                     *)
 (*                                                                            *)
 (* A character is a one-character string (a character CLASS: "a" any letter,  *)
 (* " " inner/edge blank, ">", "|", "#", ";", "'", "%" ...); a name, a         *)
@@ -260,7 +261,18 @@ StrictParser(lines, labelchars) ==
        ELSE IF ~st.haslabel THEN Err("missing a label")
        ELSE Ok(Append(st.out, FinishRec(st)))
 
-(* --- parse/fasta.py iter_fasta_records(bytes): data.split(b">") ------------ *)
+(* --- parse/fasta.py iter_fasta_records(bytes) ------------------------------ *)
+(*   if data.startswith(b">"): data = data[1:]                                 *)
+(*   records = data.split(b"\n>")      a record starts with '>' at line start  *)
+(* (until commit 3b7d8a88e the data was split on every '>': labels holding a   *)
+(* '>' were cut; mutants/C06_prefix_fasta_split_every_gt.diff restores that)   *)
+RECURSIVE IndexOfNlGt(_, _)
+IndexOfNlGt(s, i) == IF i + 1 > Len(s) THEN 0
+                     ELSE IF s[i] = NL /\ s[i + 1] = GT THEN i ELSE IndexOfNlGt(s, i + 1)
+RECURSIVE SplitOnNlGt(_)
+SplitOnNlGt(s) == LET i == IndexOfNlGt(s, 1) IN
+                  IF i = 0 THEN <<s>>
+                  ELSE <<SubSeq(s, 1, i - 1)>> \o SplitOnNlGt(SubSeq(s, i + 2, Len(s)))
 RECURSIVE BytesRecords(_)
 BytesRecords(pieces) ==
     IF pieces = <<>> THEN <<>>
@@ -269,7 +281,10 @@ BytesRecords(pieces) ==
          IN IF r = <<>> \/ eol = 0 THEN BytesRecords(Tail(pieces))
             ELSE <<Rec(Strip(SubSeq(r, 1, eol - 1)), DeleteWs(SubSeq(r, eol + 1, Len(r))))>>
                  \o BytesRecords(Tail(pieces))
-BytesParser(lines) == Ok(BytesRecords(SplitOn(Flat(lines), GT)))
+BytesParser(lines) ==
+    LET t == Flat(lines)
+        d == IF t # <<>> /\ Head(t) = GT THEN Tail(t) ELSE t
+    IN Ok(BytesRecords(SplitOnNlGt(d)))
 
 (* --- parse/phylip.py MinimalPhylipParser ----------------------------------- *)
 (* header with two fields -> interleaved = False -> sequential branch          *)
@@ -447,7 +462,6 @@ NoGt(c) == \A i \in 1..Len(c.names) : ~HasChar(c.names[i], GT)
 (* the domain on which variant v of the case's format must reproduce the oracle *)
 Clean(c, v) == /\ NoBlankEdge(c)
                /\ ~HasEmptySeq(c)
-               /\ (c.fmt = "fasta" /\ v = "bytes" => NoGt(c))
 
 (* Parse(Write(x)) = Exp(x) for every text the writer may produce and every    *)
 (* parser of the format.                                                        *)
@@ -462,11 +476,15 @@ LineParsersKeepGt ==
         /\ StrictParser(CanonLines(case), FastaLabel) = Ok(Exp(case))
         /\ FasterParser(CanonLines(case), FastaLabel) = Ok(Exp(case))
 
-(* characterisation of the defect of the bytes-splitting parser: with no blank *)
-(* edges and no empty sequences it is lossless exactly when no name has a '>'  *)
-BytesParserLosslessIffNoGt ==
+(* the bytes-splitting parser keeps them too (since commit 3b7d8a88e; before   *)
+(* it was lossless exactly when no name held a '>').  HasGtCovered makes sure   *)
+(* the statement is not vacuous for the selectors that can produce such names.  *)
+BytesParserKeepsGt ==
     (Ready /\ case.fmt = "fasta" /\ NoBlankEdge(case) /\ ~HasEmptySeq(case)) =>
-        ((BytesParser(CanonLines(case)) = Ok(Exp(case))) <=> NoGt(case))
+        BytesParser(CanonLines(case)) = Ok(Exp(case))
+HasGtCovered ==
+    (stage = "pick" /\ sel.fmt = "fasta" /\ sel.fam = "N" /\ sel.p <= sel.n /\ ~(sel.n = 3 /\ sel.p # 2)) =>
+        \E c \in CasesOf(sel) : ~NoGt(c) /\ NoBlankEdge(c)
 
 (* blank edges are never preserved by a text format: every parser strips them  *)
 BlankEdgesAreLost ==
